@@ -68,6 +68,55 @@ def replay(ck, beh, label, geos=GEOS):
   return jobs, res
 
 
+def probe_jobs(ck, n):
+  import numpy as np
+  rs = np.random.RandomState(ck.seed + 202)
+  pick = lambda xs: xs[rs.randint(len(xs))]
+  jobs = []
+  for i in range(n):
+    cfg = {"b1": pick([[0, 0], [1, 2], [1, 1], [3, 2]]), "b2": pick([[1, 0], [1, 1], [3, 2]]),
+           "nest": bool(rs.randint(2)), "mavg": bool(rs.randint(2)),
+           "wd": pick([[0, 0], [1, 3], [1, 2], [3, 3]]), "dwd": bool(rs.randint(2)), "dlr": bool(rs.randint(2)),
+           "lr": pick([[1, 2], [1, 1], [1, 0], [3, 2]]), "lrs": pick(["const", "lin8"]), "graft": "SGD",
+           "start": pick([0, 2]), "S": pick([1, 2, 3]), "P": pick([1, 2, 3]), "shard": bool(rs.randint(2)),
+           "skip": bool(rs.randint(2))}
+    jobs.append({"cfg": cfg, "T": 6, "seed": ck.seed * 1000 + i})
+  return jobs
+
+
+def probe_leg(ck, n):
+  """V: coefficients of the linear regime measured on the real optimizer, validated by DSTerms_Trace."""
+  jobs = probe_jobs(ck, n)
+  res = core.run_workers("harness.workers.ds_probe", jobs, work=ck.work)
+  traces = []
+  for j, r in zip(jobs, res):
+    if r["error"]:
+      ck.violation(f"ds|probe|{'internal_error' if r['kind'] == 'internal' else 'rejected'}",
+                   f"coefficient probe raised {r['error']} cfg={j['cfg']}", {"job": j, "tb": r["tb"]})
+      continue
+    if not r["structure_ok"]:
+      ck.violation("ds|probe|update_not_supported_on_the_probed_entry",
+                   f"unit-impulse response is not a multiple of the impulse; cfg={j['cfg']}", {"job": j})
+      continue
+    traces.append(r["trace"])
+  verdicts = ck.validate("DSTerms_Trace", "DSTerms_Trace", traces)
+  for t, v in zip(traces, verdicts):
+    ck.count(1, key=["probe", t["cfg"]])
+    if v["accepted"]:
+      ck.traces_ok(1)
+    else:
+      ck.violation(f"ds|probe|{v['verdict']}",
+                   f"coefficient probe: trace rejected at step {v['l'] - 1} ({v['verdict']}); cfg={t['cfg']}",
+                   {"trace": t, "verdict": v})
+  ck.sample({"probe_trace": {"cfg": traces[0]["cfg"], "coef_row_T": traces[0]["coef"][-1], "cx": traces[0]["cx"]}})
+  bad = copy.deepcopy(traces[0])
+  m, e = bad["coef"][-1][-1]
+  bad["coef"][-1][-1] = [m * 3 if m else 1, e]
+  sub = core.Check(ck.pid, ck.level, ck.tier, ck.seed, parent=ck)
+  ck.selftest("V: a measured coefficient altered by a factor 3 is rejected",
+              not sub.validate("DSTerms_Trace", "DSTerms_Trace", [bad])[0]["accepted"])
+
+
 def run(ck):
   quick = ck.quick
   ck.mc("DSTerms_MC", "DSTerms_MC" if quick else "DSTerms_MCT", required_actions=["Step"])
@@ -86,6 +135,10 @@ def run(ck):
   _, res = replay(sub, [bad1, bad2], "selftest", geos=GEOS[:1])
   ck.selftest("R: wrong update coefficient is flagged", bool(res[0]["mismatches"]))
   ck.selftest("R: wrong statistics coefficient is flagged", bool(res[1]["mismatches"]))
+  # ---- V: coefficient probing ------------------------------------------------------------------------
+  probe_leg(ck, 64 if quick else 800)
+  ck.assume("coefficient probing: in the linear regime (SGD graft, start never reached or parameter skipped) "
+            "unit-impulse gradients / a unit parameter give dyadic coefficients that are exact in float32")
   ck.assume("symbols (Gram, inverse root, graft step, norm) are interpreted in float64 numpy from the "
             "documentation; the ridge of a Newton root is eps*lambda_max*10^(retries-1) with the retry "
             "count the optimizer itself reports")
